@@ -28,12 +28,13 @@ type oblResult struct {
 }
 
 type job struct {
-	res   *oblResult
-	query string
-	light string
-	sgIdx int
-	sg    subgoal
-	alts  []job // alternative way to discharge this subgoal (all must be unsat)
+	res    *oblResult
+	query  string
+	light  string
+	light2 string
+	sgIdx  int
+	sg     subgoal
+	alts   []job // alternative way to discharge this subgoal (all must be unsat)
 }
 
 func hasTag(tags []string, p string) bool {
@@ -148,7 +149,13 @@ func run(repo, verif, prop, tier, only, dump string, list, verbose bool, timeout
 			for i, sg := range sgs {
 				q := ex.buildQuery(o, sg, "", ex.inputTerms())
 				lq := ex.buildQueryMode(o, sg, "", nil, true)
-				j := job{res: r, query: q, light: lq, sgIdx: i, sg: sg}
+				pairInstances = true
+				lq2 := ex.buildQueryMode(o, sg, "", nil, true)
+				pairInstances = false
+				if lq2 == lq {
+					lq2 = ""
+				}
+				j := job{res: r, query: q, light: lq, light2: lq2, sgIdx: i, sg: sg}
 				for _, asg := range ex.altGoals(sg) {
 					j.alts = append(j.alts, job{res: r, query: ex.buildQuery(o, asg, "", nil), light: ex.buildQueryMode(o, asg, "", nil, true), sgIdx: i, sg: asg})
 				}
@@ -184,12 +191,18 @@ func run(repo, verif, prop, tier, only, dump string, list, verbose bool, timeout
 		for _, j := range jobs {
 			name := sanitize(j.res.O.Name) + fmt.Sprintf(".%d.smt2", j.sgIdx)
 			os.WriteFile(filepath.Join(dump, name), []byte(j.query), 0o644)
+			if j.light != "" {
+				os.WriteFile(filepath.Join(dump, strings.TrimSuffix(name, ".smt2")+".light.smt2"), []byte(j.light), 0o644)
+			}
+			if j.light2 != "" {
+				os.WriteFile(filepath.Join(dump, strings.TrimSuffix(name, ".smt2")+".light2.smt2"), []byte(j.light2), 0o644)
+			}
 		}
 	}
 	// solve in parallel
 	var mu sync.Mutex
 	var wg sync.WaitGroup
-	sem := make(chan struct{}, 6) // each job races 3 solvers
+	sem := make(chan struct{}, 5) // each job races 3 solvers
 	var solverMs int64
 	for i := range jobs {
 		j := jobs[i]
@@ -207,6 +220,12 @@ func run(repo, verif, prop, tier, only, dump string, list, verbose bool, timeout
 				sr = Solve(j.light, 4, false)
 				if sr.Status == "unsat" {
 					sr.Solver += "(inst)"
+				}
+			}
+			if sr.Status != "unsat" && j.light2 != "" {
+				sr = Solve(j.light2, 10, false)
+				if sr.Status == "unsat" {
+					sr.Solver += "(inst2)"
 				}
 			}
 			if sr.Status != "unsat" {
@@ -457,7 +476,7 @@ func report(V *Verifier, verif, repo, prop, tier string, start time.Time, result
 		"trusted_base": trusted, "samples": samples, "functions_under_contract": fuc, "per_obligation": perObl,
 		"backends": backends, "solver_time_s": float64(solverMs) / 1000.0, "cover_checks": nCover, "cover_ok": nCoverOK,
 		"loops_without_invariant": noInv,
-		"explanation": fmt.Sprintf("%d proof obligations generated from the SSA of %d functions of the working tree; %d discharged (unsat) by an SMT solver; %d vacuity covers checked", nObl, len(fuc), nDis, nCover),
+		"explanation":             fmt.Sprintf("%d proof obligations generated from the SSA of %d functions of the working tree; %d discharged (unsat) by an SMT solver; %d vacuity covers checked", nObl, len(fuc), nDis, nCover),
 	}
 	ev := evidence{PropertyID: prop, Tier: tier, Seed: seedEnv(), Level: lvl, Coverage: cov, Assumptions: assumptions, WallS: time.Since(start).Seconds(), Violations: violations}
 	os.MkdirAll(filepath.Join(outRoot, "evidence"), 0o755)
